@@ -8,6 +8,7 @@ CONSTANTS
   Typed = FALSE
   Ops = {"ConstructEmpty", "AddSelf", "MoveConstruct", "AddHandle", "AddTo", "MergeShl", "Pop", "Clear", "Destroy", "CoAwait"}
   Fixed = TRUE
+  Ctxs = {"flow"}
   Targets = {12, 24, 25, 40, 48}
 INVARIANTS TypeOK RepOK NoDoubleResume Conservation NoLeak
 PROPERTIES InlineNoAlloc MovedFromIsEmpty EmptyResumesNothing ValuePreserved ReadsAgree ResumeOrder QueueFIFO
